@@ -225,6 +225,59 @@ func checkC16(w *Worker) {
 		}
 		cell(x, cfgLoc, L, flagSet, envSet, cfgSet, [5]int{0, 0, 0, 0, 0}, [5]int{1, 1, 1, 1, 1})
 	})
+	// the value that is used is the value that was given - also when it is a file name that looks like something else (a
+	// leading tilde that is not "~/", a dollar sign, a percent verb, blanks, letters of two bytes, dots): whichever source
+	// names the book, the log or the configuration file, that very file is read
+	oddNames := []string{"~today.yaml", "~old/log.yaml", "$HOME.yaml", "%s %d.yaml", "two words.yaml", "données.yaml", "./sub/../plain.yaml", "-dash.yaml", "~"}
+	w.Explore("file-names-that-look-like-something-else", ExploreOpts{ShardDepth: 3}, func(x *Exec) {
+		name := oddNames[x.Choose(len(oddNames), "input:file-name")]
+		what := x.Choose(3, "input:setting") // book, log, configuration file
+		src := x.Choose(3, "input:source")   // flag, variable, configuration file entry
+		if what == 2 && src == 2 {
+			x.Case("skip: a configuration file does not name a configuration file", false)
+			return
+		}
+		if name == "-dash.yaml" && src == 0 {
+			name = "./-dash.yaml" // (a flag value must not look like a flag)
+		}
+		book, log := "r:\n  x: 7\n", "2001/02/03:\n  r: 3\n  marker: 1\n"
+		files := map[string]string{"food.yaml": "r:\n  x: 1\n", "log.yaml": "2001/02/03:\n  r: 1\n", "sub/keep": ""}
+		c := appCase{Args: []string{"--no-color"}, Files: files, Mod: patchDefault, Env: map[string]string{}}
+		var wantOut string
+		switch what {
+		case 0:
+			files[name] = book
+			wantOut = "21.00" // 3 x 7 under the named book, 3 x 1 = 3.00 under the default one
+			files["log.yaml"] = log
+		case 1:
+			files[name] = log
+			wantOut = "marker"
+		default:
+			files[name] = "[Global]\nLogFileName=other.yaml\n"
+			files["other.yaml"] = log
+			wantOut = "marker"
+		}
+		flag, env, key := [][3]string{{"-d", "HR_DATABASE", "DbFileName"}, {"-l", "HR_LOGFILE", "LogFileName"}, {"--config", "HR_CONFIG", ""}}[what][0], "", ""
+		env, key = [][3]string{{"-d", "HR_DATABASE", "DbFileName"}, {"-l", "HR_LOGFILE", "LogFileName"}, {"--config", "HR_CONFIG", ""}}[what][1], [][3]string{{"-d", "HR_DATABASE", "DbFileName"}, {"-l", "HR_LOGFILE", "LogFileName"}, {"--config", "HR_CONFIG", ""}}[what][2]
+		switch src {
+		case 0:
+			c.Args = append(c.Args, flag, name)
+		case 1:
+			c.Env[env] = name
+		default:
+			files["names.cfg"] = "[Global]\n" + key + "=" + name + "\n"
+			c.Args = append(c.Args, "--config", "names.cfg")
+		}
+		c.Args = append(c.Args, "reg")
+		r := runApp(c)
+		x.Obs(r.Key())
+		x.Case(fmt.Sprint(name, what, src), true)
+		if r.Failed || r.Panic != "" || !strings.Contains(r.Stdout, wantOut) {
+			x.Violate("C16|file-name-not-used-as-given|"+[]string{"book", "log", "configuration file"}[what]+"|"+[]string{"flag", "variable", "configuration file entry"}[src],
+				fmt.Sprintf("the file %q exists and is named through the %s\n`%s`\ndoes not read it (expected %q in the register): %s", name, []string{"flag", "variable", "configuration file"}[src], c.shell(), wantOut, r.String()),
+				map[string]interface{}{"cmd": c.shell(), "observed": r.String()})
+		}
+	})
 	// a flag or variable whose value equals the documented default, against a configuration file that says otherwise
 	w.Explore("given-value-equals-the-default", ExploreOpts{ShardDepth: 4}, func(x *Exec) {
 		cfgLoc := 1 + x.Choose(3, "input:config-location")
